@@ -137,3 +137,4 @@ package bbc
 //@ ensures frag.FailBit() ==> err == nil && sent(c.failTransmission) == old(sent(c.failTransmission)) + 1 && sent(c.reportChan) == old(sent(c.reportChan))
 //@ ensures sent(c.reportChan) == old(sent(c.reportChan)) || sent(c.reportChan) == old(sent(c.reportChan)) + 1
 //@ ensures err != nil ==> sent(c.reportChan) == old(sent(c.reportChan))
+//@ atreturn err == nil && !frag.FailBit() && transmission != nil && transmission.finished ==> sent(c.reportChan) == old(sent(c.reportChan)) + 1
